@@ -121,6 +121,10 @@ func runMany(r *vk.Run, prog []model.Node, compact bool, many int, class string)
 			r.Class("deep recursion refused with an error")
 			return nil
 		}
+		if want.Lenient != "" && strings.Contains(res.Err.Error(), "unknown identifier") {
+			r.Exclude("nested unknown identifier not forgiven")
+			return nil
+		}
 		return fail("render failed: %v; reference output %q", res.Err, want.Out)
 	}
 	if !match.SameText(res.Out, want.Out) {
